@@ -104,6 +104,15 @@ func C08_Run(job string) {
 				i, s, bb, f = x+k, "nope", true, 2.5
 				e1 := si.Validate(&i)
 				e2 := ss.Validate(&s)
+				{
+					// right after a catching schema ran: nodes behind pointers must still report
+					var np0 *int
+					one0 := []int{k}
+					pone0 := &one0
+					if len(sp.Validate(&np0)["$root"]) != 1 || len(spl.Validate(&pone0)["$root"]) != 1 {
+						v.Flag()
+					}
+				}
 				e3 := sb.Validate(&bb)
 				e4 := sf.Validate(&f)
 				if len(e2) != 0 || s != "c@d.ee" || len(e3) != 0 || len(e4) != 0 {
